@@ -7,33 +7,35 @@ import warnings
 from .agents import walk_diff as W
 
 
-def _lets_variant(items, rng, lets):
-    """Same nesting with every loop count replaced by a let constant; returns Jaqal body text."""
+def _map_counts(items, f):
+    """Deep copy of a walk_diff item tree with every loop count c replaced by f(c)."""
     out = []
     for it in items:
-        if it[0] == "g":
-            g = it[1]
-            out.append({"P": "prepare_all", "M": "measure_all"}.get(g) or f"{W.ORD[g][0]} r[{W.ORD[g][1]}]")
-        elif it[0] == "loop":
-            name = f"n{len(lets)}"
-            lets.append((name, it[1]))
-            out.append(f"loop {name} {{\n" + _lets_variant(it[2], rng, lets) + "\n}")
+        if isinstance(it, list) and it and it[0] in ("loop", "ploop"):
+            out.append([it[0], f(it[1]), _map_counts(it[2], f)])
+        elif isinstance(it, list) and it and it[0] == "g":
+            out.append(list(it))
+        elif isinstance(it, list) and it and isinstance(it[0], str):
+            out.append([it[0]] + [_map_counts(x, f) if isinstance(x, list) else x for x in it[1:]])
         else:
-            out.append("< {\n" + _lets_variant(it[1], rng, lets) + "\n} >")
-    return "\n".join(out)
+            out.append(it)
+    return out
 
 
-def _with_counts(items, counts, k=[0]):
-    res = []
-    for it in items:
-        if it[0] == "loop":
-            c = counts.pop(0)
-            res.append(["loop", c, _with_counts(it[2], counts)])
-        elif it[0] == "pblk":
-            res.append(["pblk", _with_counts(it[1], counts)])
-        else:
-            res.append(it)
-    return res
+def _lets_variant(items, rng, lets):
+    """Same nesting with every loop count replaced by a let constant; returns Jaqal body text."""
+
+    def name(c):
+        nm = f"n{len(lets)}"
+        lets.append((nm, c))
+        return nm
+
+    return W.jq(_map_counts(items, name))
+
+
+def _with_counts(items, counts):
+    counts = list(counts)
+    return _map_counts(items, lambda c: counts.pop(0))
 
 
 def extra_run(ctx, res):
@@ -49,8 +51,7 @@ def extra_run(ctx, res):
     tries = 0
     while done < n and tries < 20 * n:
         tries += 1
-        st = [False]
-        items = W.gen_biased(rng, 0, 3, st) if rng.random() < 0.8 else W.gen_items(rng, 0, 3)
+        items = W.gen_biased(rng, 0, 3) if rng.random() < 0.8 else W.gen_items(rng, 0, 3)
         toks = []
         W.flat_tokens(items, [], toks)
         if W.ref_bracket(toks)[0] != "ok":
